@@ -143,6 +143,7 @@ type machine struct {
 	events    []string // dag event log etc (engine-side)
 	charCache map[string][2]*Term
 	memo      map[string]value
+	fold      map[string]*Term
 	smallVars map[string]*inputVar
 	runesMax  int
 	splitMax  int
@@ -675,6 +676,45 @@ func (m *machine) choose(n int, what string) int {
 	m.trace = append(m.trace, decision{Choice: 0, N: n})
 	m.pos++
 	return 0
+}
+
+// ---------- folding of decompositions ----------
+
+// noteFold records that the concatenation whole is, on this path, the string
+// orig it was decomposed from; foldTerm rewrites such concatenations back so
+// that the same string is represented by the same term.
+func (m *machine) noteFold(whole, orig *Term) {
+	if m.fold == nil {
+		m.fold = map[string]*Term{}
+	}
+	m.fold[whole.key] = orig
+}
+
+func (m *machine) foldTerm(t *Term) *Term {
+	if len(m.fold) == 0 || t.Op != "str.++" {
+		return t
+	}
+	for changed := true; changed; {
+		changed = false
+		parts := concatParts(t)
+		n := len(parts)
+	search:
+		for w := n; w >= 2; w-- {
+			for i := 0; i+w <= n; i++ {
+				sub := mkConcat(parts[i : i+w]...)
+				if o, ok := m.fold[sub.key]; ok {
+					np := append(append(append([]*Term{}, parts[:i]...), o), parts[i+w:]...)
+					t = mkConcat(np...)
+					changed = true
+					break search
+				}
+			}
+		}
+		if t.Op != "str.++" {
+			break
+		}
+	}
+	return t
 }
 
 // ---------- map iteration order ----------
